@@ -52,7 +52,7 @@ CHECKS = {
              level_text="Generated interleavings of block commits, pending writes, opening up to 4 historical views, Get/Has/range reads and "
                         "iterators kept open across later commits. Every read through a view of height h is compared with the snapshot of h. "
                         "Exploration only: <=14 blocks, single goroutine.",
-             level_note=_TRUST + "Height cache off (C10 covers it). The application-level form (historical RPC queries through ctx.PrevCtx and the "
+             level_note=_TRUST + "The in-memory height cache is on in a third of the cases (C10 compares cache on/off directly). The application-level form (historical RPC queries through ctx.PrevCtx and the "
                         "historical-context cache, compared with recorded committed state) is props/abci TestC09App, run by the same check. True "
                         "concurrency between queries and block execution is not explored.",
              also=[dict(group="abci", test="TestC09App", quick=dict(checks=120, timeout=400), thorough=dict(checks=1200, shards=4, timeout=1500))]),
